@@ -27,7 +27,7 @@ def check_program(b, inst):
         return [("build", "building the operator raised %s: %s" % (type(e).__name__, str(e)[:120]))], 0
     energy = inst["prog"][-1]["op"] in ("gauss", "vcg")
     n = 0
-    for pt in cc.points_for(inst)[:3]:
+    for ipt, pt in enumerate(cc.points_for(inst)[:3]):
         try:
             val, jac, inner = cc.expected(inst, pt)
         except cc.Singular:
@@ -72,6 +72,8 @@ def check_program(b, inst):
                         out.append(("gradient-keys", "%s: the gradient of the energy has components for %s" % (where, sorted(g.keys()))))
                     elif not cc.close(g[free].asnumpy(), jac[0, fcols]) or not cc.close(float(ea.value), val[0]):
                         out.append(("gradient", "%s: energy value / gradient %r / %s, expected %r / %s" % (where, float(ea.value), g[free].asnumpy().tolist(), val[0], jac[0, fcols].tolist())))
+                    if not cc.close(ea.apply_metric(ift.MultiField.from_dict({free: ift.makeField(b.dom, np.array([1., 0.]))}))[free].asnumpy(), Mexp[:, 0]):
+                        out.append(("metric", "%s: EnergyAdapter.apply_metric is not the metric block of the free key" % where))
                     mini = ift.SteepestDescent(ift.GradientNormController(iteration_limit=1))
                     e2, _ = mini(ea)
                     newpos = e2.position
@@ -79,7 +81,53 @@ def check_program(b, inst):
                         out.append(("const-moved", "%s: a minimiser step changed the constant key" % where))
             except Exception as e:
                 out.append(("raises", "%s: %s: %s" % (where, type(e).__name__, str(e)[:140])))
+            if inst["shape"] == "scal" and ipt == 0:
+                out += stochastic_adapter(b, inst, op, pt, const, free, energy, where)
     return out, n
+
+
+def stochastic_adapter(b, inst, op, pt, const, free, energy, where):
+    """StochasticEnergyAdapter: the key `const` is filled with the adapter's own standard-normal samples (mirrored), the energy is the
+    average over them of the original operator with the sample inserted: value, gradient and metric are the averages of the specification's
+    value, free-key Jacobian columns and metric block; moving the position (at) keeps the samples"""
+    ift = b.ift
+    out = []
+    fcols = b.cols([free])
+    try:
+        with ift.random.Context(31):
+            pos = ift.MultiField.from_dict({free: ift.makeField(b.dom, pt[free].copy())})
+            sea = ift.StochasticEnergyAdapter.make(pos, op, [const], 2, True)
+        noise = sea.samples()
+        if len(noise) != 4 or not all(np.array_equal(noise[2 * i][const].asnumpy(), -noise[2 * i + 1][const].asnumpy()) for i in range(2)):
+            out.append(("stochastic-samples", "%s: 2 mirrored samples requested, %d samples that are not pairs of opposite sign" % (where, len(noise))))
+            return out
+        for label, adapter, at in (("", sea, pt[free]), (" after at()", None, pt[free] * 0.5 + 0.125)):
+            if adapter is None:
+                adapter = sea.at(ift.MultiField.from_dict({free: ift.makeField(b.dom, at.copy())}))
+                if [id(x) for x in adapter.samples()] != [id(x) for x in noise]:
+                    out.append(("stochastic-at", "%s: at() does not keep the samples" % where))
+            vals, grads, mets = [], [], []
+            for nz in noise:
+                p2 = {free: at, const: nz[const].asnumpy()}
+                v_, j_, in_ = cc.expected(inst, p2)
+                vals.append(v_[0])
+                grads.append(j_[0, fcols])
+                if energy:
+                    mets.append((in_.T @ in_)[np.ix_(fcols, fcols)])
+            if not cc.close(float(adapter.value), np.mean(vals)):
+                out.append(("stochastic-value", "%s: StochasticEnergyAdapter%s value %r, the average over its samples is %r" % (where, label, float(adapter.value), float(np.mean(vals)))))
+            if set(adapter.gradient.keys()) != {free} or not cc.close(adapter.gradient[free].asnumpy(), np.mean(grads, axis=0)):
+                out.append(("stochastic-gradient", "%s: StochasticEnergyAdapter%s gradient %s, the average over its samples is %s" % (where, label, adapter.gradient[free].asnumpy().tolist(), np.mean(grads, axis=0).tolist())))
+            if energy:
+                M = np.array([adapter.apply_metric(ift.MultiField.from_dict({free: ift.makeField(b.dom, e)}))[free].asnumpy() for e in np.eye(2)]).T
+                M2 = np.array([adapter.metric(ift.MultiField.from_dict({free: ift.makeField(b.dom, e)}))[free].asnumpy() for e in np.eye(2)]).T
+                if not cc.close(M, np.mean(mets, axis=0)) or not cc.close(M2, M, 1e-13):
+                    out.append(("stochastic-metric", "%s: StochasticEnergyAdapter%s metric %s, the average over its samples is %s" % (where, label, np.round(M, 8).tolist(), np.round(np.mean(mets, axis=0), 8).tolist())))
+    except cc.Singular:
+        pass
+    except Exception as e:
+        out.append(("stochastic-raises", "%s: StochasticEnergyAdapter: %s: %s" % (where, type(e).__name__, str(e)[:140])))
+    return out
 
 
 def run(ctx):
